@@ -767,6 +767,7 @@ func main() {
 	c.Rule = "both claim syncers (production wiring captured from the real offered reconciler): (a) for every claim reconcile of the fault-free run, EVERY API-call index x 6 outcomes, then retries; (b) claim reads served from a cache lagging 1..12 writes (claims only / claims and XRs), at three points of the binding; (c) seeded random schedules and an enumerated grid of bounded-preemption plans (A runs k1 calls, intruder 1 completes, A runs k2 more, intruder 2 completes) at API-call granularity of two claims with the same name in different namespaces, the XR reconciler and user deletion of a claim; (d) statically referenced XRs bound to another claim / nobody. Hook invariants on every store state: O1 <=1 XR per claim, O2 XR created only under the name already stored in the claim's spec.resourceRef, O3 no mutating call to an XR whose stored claimRef names another claim. distinct = (mode, position, outcome) / schedule string; non-trivial = fault between the reference update and the XR apply or a crash; a stale read was actually served; >=2 actor switches."
 	c.Rule += " Interleave part: two claims reconciled by ONE claim reconciler, the first parked before each of its API calls while the second completes (both bound, or the second binding meanwhile); XRs and claims must equal those of the sequential run. O4: a name durably recorded in the stored claim's spec.resourceRef is never replaced by another one. Stale-read variant 3: only the XR cache lags. Static references to an XR bound to another claim are also run with every call index x 6 outcomes on the first (refused) reconcile."
 	c.Rule += " " + "A claim deleted behind the cache is generated and counted (observed only)."
+	c.Rule += " " + "The XRD's referenceable version changes under a bound claim (also with the XR missing while its name is recorded)."
 	c.Assumptions = []string{"sim implements resourceVersion conflicts and the stale-cache view (DESIGN.md 2.2)", "two reconciles of the same claim never run concurrently (work-queue guarantee)", "random 5-char name suffix collisions are out of scope"}
 	c.Floor = 100
 	for _, ssa := range []bool{false, true} {
